@@ -74,6 +74,7 @@ class Tracer:
         self.max_paths = max_paths
         self.value_of_call = value_of_call
         self.cond_events = set(cond_events)
+        self.keep_panics = False
         self.env = {}
         self.depth = 0
 
@@ -128,6 +129,8 @@ class Tracer:
                 out.add(('ret', t, v))
             elif ex == 'try':
                 out.add(('try', t, 'err'))
+            elif ex == 'panic' and not self.keep_panics:
+                continue   # assertion failures / unreachable!: not a way the function completes
             else:
                 out.add((ex, t, v))
         return out
@@ -384,6 +387,9 @@ class Tracer:
         args = e['args']
         L = self.label(e)
         ev = (L,) if L else ()
+        if name.startswith(('core::panicking::', 'std::rt::begin_panic', 'std::rt::panic_', 'std::process::exit', 'std::process::abort')):
+            # a diverging call: the path ends here (exit kind 'panic'), it is neither an Ok nor an Err exit
+            return {('panic', ev, 'unk')}
 
         def after():
             if name in OK_CTORS or name.endswith('Result::Ok'):
